@@ -146,13 +146,14 @@ class ListS:
         return SList([(ln > i, self.e.fresh(E, f"{name}_e{i}", init)) for i in range(self.n)])
 
     def flat(self, E, v):
+        w = self.e.width()
         if isinstance(v, Guarded):
             parts = [(c, self.flat(E, x)) for c, x in v.alts if not isinstance(x, Undefined) and x is not None]
             if not parts:
-                return [z3.IntVal(0)] * (1 + self.n)
-            return [_ite_chain([(c, p[i]) for c, p in parts]) for i in range(1 + self.n)]
+                return [z3.IntVal(0)] * self.width()
+            return [_ite_chain([(c, p[i]) for c, p in parts]) for i in range(self.width())]
         if v is None:
-            return [z3.IntVal(0)] * (1 + self.n)
+            return [z3.IntVal(0)] * self.width()
         if isinstance(v, (list, tuple)):
             v = SList([(TRUE, x) for x in v])
         ln = E.count([c for c, _ in v.items])
@@ -160,19 +161,19 @@ class ListS:
         out = [ln]
         for i in range(self.n):
             if len(v.items) == 0:
-                out.append(z3.IntVal(0))
+                out += [z3.IntVal(0)] * w
                 continue
             n0 = len(E.raises)
             x = E.slist_index(v, i, TRUE) if any(E.pybool(c) is not True for c, _ in v.items) else (v.items[i][1] if i < len(v.items) else None)
             del E.raises[n0:]
-            t = self.e.flat(E, x)[0] if x is not None and not isinstance(x, Undefined) else z3.IntVal(0)
-            out.append(z3.If(ln > i, t, z3.IntVal(0)))
+            ts = self.e.flat(E, x) if x is not None and not isinstance(x, Undefined) else [z3.IntVal(0)] * w
+            out += [z3.If(ln > i, t, z3.IntVal(0)) for t in ts]
         if len(v.items) > self.n:
             E.overflow.append(ln > self.n)
         return out
 
     def width(self):
-        return 1 + self.n
+        return 1 + self.n * self.e.width()
 
 
 class RefS:
